@@ -68,13 +68,16 @@ for _p in ("C04", "C05", "C06", "C07", "C12"):
     PROPS[_p]["units"] = list(PROPS[_p]["units"]) + ["consts"]
 
 A_ARK4 = "A-ARK-4: each ark_r1cs_std primitive used (FpVar new_witness/new_constant/square/inverse/negate/is_eq/conditionally_select/conditional_enforce_equal/to_bits_le/+,-,*; Boolean new_witness/and/or/not/is_eq/enforce_equal/select; AffineVar::new) is a sound and complete gadget for the operation it names (preludes/r1cs.rs)"
-PROPS["C14"] = dict(units=["r1cs_sound"], assumptions=[A_ARK4, M_PRIME + " (no zero divisors; a non-zero square has exactly two roots; zeta is a non-square)", M_DECAF, A_WF],
+PROPS["C14"] = dict(units=["r1cs_sound", "r1cs_fwd_sound", "r1cs_outer_sound"], assumptions=[A_ARK4, M_PRIME + " (no zero divisors; a non-zero square has exactly two roots; zeta is a non-square)", M_DECAF, A_WF],
     explanation="the verbatim gadget code is verified with every witness value left arbitrary and every enforced constraint taken as a fact: any satisfying assignment makes isqrt / sign / abs / encode / decode / Elligator / equality / select outputs satisfy the specification's relations; known finding D6 is the region den = 0 of isqrt (decode of s = q-1)",
-    not_decided=["AllocVar::new_variable (generic Borrow/closure plumbing) and the LazyElementVar RefCell layer of r1cs/element.rs, r1cs/lazy.rs, r1cs/ops.rs"])
+    not_decided=["AllocVar::new_variable / new_variable_omit_prime_order_check of inner.rs and element.rs (generic Borrow / closure plumbing around the decode-and-compare check): bounded probe r1cs.alloc (off-curve and out-of-group coordinate pairs through both entry points)",
+                 "to_bits_le / to_bytes / value / cs of both ElementVar layers", "lazy.rs itself is C13 (Kani)"])
 
-PROPS["C13"] = dict(units=["r1cs_compl"], assumptions=[A_ARK4, M_PRIME, M_ELL, M_DECAF, C09_CONTRACT, A_WF],
-    explanation="the verbatim gadget code is verified with honest hints (witness = value of the hint closure) and every enforced constraint / inverse as a proof obligation: synthesis returns Ok, all constraints hold, and outputs equal the native specification values (isqrt flag and root, sign, abs, encode, decode when native decoding succeeds, Elligator coordinates, equality, select)",
-    not_decided=["LazyElementVar forcing order / constraint counts (RefCell interior mutability and the hidden ark_relations constraint store: no contract can mention them)", "AllocVar::new_variable plumbing, scalar multiplication gadget (arkworks default method)", "add/sub/negate/double forwarding to AffineVar (A-ARK-4)"])
+PROPS["C13"] = dict(units=["r1cs_compl", "r1cs_fwd_compl", "r1cs_outer_compl"], assumptions=[A_ARK4, M_PRIME, M_ELL, M_DECAF, C09_CONTRACT, A_WF],
+    explanation="the verbatim gadget code is verified with honest hints (witness = value of the hint closure) and every enforced constraint / inverse / new_witness / expect as a proof obligation: synthesis returns Ok, all constraints hold, and outputs equal the native specification values (isqrt flag and root, sign, abs, encode, decode when native decoding succeeds, Elligator coordinates, equality, select); the 17 operator / CurveVar forwarding impls of inner.rs and the 27 functions of the lazily evaluated outer ElementVar (element.rs, ops.rs) are verified against the group law te_add / te_neg with LazyElementVar abstract; lazy.rs itself (forcing order, repetition, emission counts, RefCell discipline) is proved by Kani on the verbatim file",
+    not_decided=["AllocVar::new_variable / new_variable_omit_prime_order_check (generic Borrow / closure plumbing): bounded probe r1cs.lazy (every allocation route)",
+                 "scalar multiplication gadget scalar_mul_le (arkworks default method over double_in_place / conditionally_select / add, all three under contract)",
+                 "to_bits_le / to_bytes / value / cs", "histories of forcing operations longer than 4 on one lazy variable (absorbing-state argument, see DESIGN 2.6)"])
 
 M_SQRT = "M-SQRT: the constant-time Tonelli-Shanks `our_sqrt` of the minimal build returns a square root of every square (assumed; the four-case wrapper around it is proved). The Sarkar table routine of the default build is no longer assumed: unit ark_invsqrt proves it."
 M_ROOTS8 = "M-ROOTS8: h = g^(2^39) is a primitive 256th root of unity in the cyclic group Fq^*, hence every x with x^256 = 1 is an inverse power h^(-nu), nu < 256 (a statement about the constants q and g only; g^(2^47) = 1 != g^(2^46) is proved by compute)"
